@@ -4,7 +4,7 @@ from vlib import std, lab, common
 
 PID = "C04"
 META = {
-    "text": "Theorems (Properties_C04.v, closed under the global context): Squid's Connection-list reader (strListGetItem loop with quoting, delimiter skipping and trimming) reads every token list as comma-split / OWS-trimmed / empty-elements-ignored, membership is the case-insensitive element match (induction over the text, all lengths); for ALL header blocks the response filter relays no field that is hop-by-hop in the registered-header table (regenerated from the code each run), is Proxy-Authenticate, is named by the joined Connection value, or bears a standard hop-by-hop name in any letter case; for ALL header blocks and configurations the request filter never copies Connection/TE/Keep-Alive/Proxy-Authenticate/Trailer/Transfer-Encoding/Upgrade/Proxy-Connection and copies Proxy-Authorization only to a non-origin peer with login=PASS*. The Connection-named-request-field statement is proved for the default branch (_partial) and REFUTED at full strength (witness Connection: Authorization) — known finding C04-conn-named-registered. Tie: header table regenerated; extracted model diffed against the real squid binary (built from the working tree) between a scripted origin and client on generated header sets.",
+    "text": "Theorems (Properties_C04.v, closed under the global context): Squid's Connection-list reader (strListGetItem loop with quoting, delimiter skipping and trimming) reads every token list as comma-split / OWS-trimmed / empty-elements-ignored, membership is the case-insensitive element match (induction over the text, all lengths); for ALL header blocks the response filter relays no field that is hop-by-hop in the registered-header table (regenerated from the code each run), is Proxy-Authenticate, is named by the joined Connection value, or bears a standard hop-by-hop name in any letter case; for ALL header blocks and configurations the request filter never copies Connection/TE/Keep-Alive/Proxy-Authenticate/Trailer/Transfer-Encoding/Upgrade/Proxy-Connection and copies Proxy-Authorization only to a non-origin peer with login=PASS*. The Connection-named-request-field statement is proved for the default branch (_partial) and REFUTED at full strength (witness Connection: Authorization) — known finding C04-conn-named-registered. On the revalidation path (HttpHeader::update as repaired by /repo 5d5369d, model shared with C14) the stored Connection entries survive an origin 304 and, for ALL stored and 304 header sets, no stored field they nominate and nothing hop-by-hop of the 304 is relayed (former finding C04-reval-stored-hop-fields, now a theorem and a regression scenario). Tie: header table regenerated; extracted model diffed against the real squid binary (built from the working tree) between a scripted origin and client on generated header sets.",
     "note": "partial: the theorems are about the transcribed filter functions (HopModel.v); that the event-driven proxy applies exactly these filters on every path rests on the end-to-end correspondence (forward-proxy GET/OPTIONS misses). Trusted: Coq kernel, extraction, gen/gen_hdrtable.cc, vlib/lab.py stubs.",
     "technique": "Coq proof (induction on list text; case analysis on the header-id switch with ids normalised against the regenerated table; vm_compute table sweeps) + end-to-end differential correspondence of the extracted model against the running squid + independent oracle",
 }
